@@ -1890,10 +1890,13 @@ class Process:
         return _psposix.wait_pid(self.pid, timeout, self._name)
 
     @wrap_exceptions
-    def create_time(self):
+    def create_time(self, monotonic=False):
         ctime = float(self._parse_stat_file()['create_time'])
         # According to documentation, starttime is in field 21 and the
-        # unit is jiffies (clock ticks).
+        # unit is jiffies (clock ticks), relative to system boot. It
+        # never changes and is unaffected by system clock updates.
+        if monotonic:
+            return ctime / CLOCK_TICKS
         # We first divide it for clock ticks and then add uptime returning
         # seconds since the epoch.
         # Also use cached value if available.
